@@ -28,6 +28,7 @@ type codecCase struct {
 	Text  []int `json:"text"`
 	Alt   []int `json:"alt"`
 	Alt3  []int `json:"alt3"`
+	Alt4  []int `json:"alt4"`
 	Probe []int `json:"probe"`
 }
 
@@ -129,6 +130,9 @@ func checkC14(rc *Run) error {
 		}
 		if len(c.Alt3) > 0 {
 			mk("D4", dargs, runesOf(c.Alt3))
+		}
+		if len(c.Alt4) > 0 {
+			mk("D5", dargs, runesOf(c.Alt4))
 		}
 	}
 	dir := filepath.Join(rc.Out, "run")
